@@ -265,6 +265,48 @@ def b_batch_gradient(ctx):
                     if ia != ib or not (a == b or abs(a - b) <= 1e-9 * max(abs(a), abs(b))):
                         ctx.fail(f'C10:batch-gradient-labels:{fam}', f'{fam}: point {i} (G = {g}) of {seq}: lifetime {a} / infinite {ia} with the gradients {gs} labelled {labels}, {b} / {ib} with the labels 0..{n_ - 1}',
                                  {'sequence': seq, 'G': gs, 'labels': labels})
+    # verdicts near the endurance limit: with per-point gradients the points have different endurance limits; at a load level just below the level at which the
+    # point with the LARGEST limit turns finite, the points with smaller limits are finite already - every point must still get its own verdict (both families).
+    # The level is found by bisection on single-point runs (added after seed C10-h compared every point with the smallest endurance limit of the batch)
+    if ctx.shard == 0:
+        seq = [100, -200, 100, -250, 200, 0, 200, -200]
+        for gs in ((20.0, 0.2), (0.2, 20.0, 8.0)):
+            g_hi = max(gs)
+            lo_, hi_ = 0.02, 1.5
+
+            def infinite(scale, g):
+                r_ = assess(base_params(G=g), pd.Series([float(v) * scale for v in seq]), raj=False)
+                return bool(val(r_, KEYS_RAM[1]))
+            if not infinite(lo_, g_hi) or infinite(hi_, g_hi):
+                ctx.count('endurance-bracket-not-found')
+                continue
+            for _ in range(14):
+                mid = 0.5 * (lo_ + hi_)
+                if infinite(mid, g_hi):
+                    lo_ = mid
+                else:
+                    hi_ = mid
+            for scale in (lo_ * 0.995, lo_ * 0.93):
+                sseq = [float(v) * scale for v in seq]
+                prm_b = base_params()
+                prm_b['G'] = pd.Series(list(gs), index=pd.Index(range(len(gs)), name='node_id'))
+                ctx.case(True, key=('near-endurance', gs, round(scale, 6)))
+                try:
+                    multi = assess(prm_b, batch_series(sseq, (1.0,) * len(gs)))
+                except Exception as e:   # noqa
+                    ctx.fail(f'C10:batch-gradient:near-endurance:raises:{type(e).__name__}', f'assessment near the endurance limit with per-point gradients {gs} raises {type(e).__name__}: {str(e)[:160]}', {'sequence': sseq, 'G': gs})
+                    continue
+                verdicts = []
+                for i, g in enumerate(gs):
+                    single = assess(base_params(G=g), pd.Series(sseq))
+                    for fam, keys in (('P_RAM', KEYS_RAM), ('P_RAJ', KEYS_RAJ)):
+                        ia, ib = bool(val(multi, keys[1], i)), bool(val(single, keys[1]))
+                        if fam == 'P_RAM':
+                            verdicts.append(ib)
+                        if ia != ib:
+                            ctx.fail(f'C10:batch-gradient:near-endurance:{fam}', f'{fam}: point {i} (G = {g}) of {sseq} with per-point gradients {gs}: infinite life {ia} in the batch, {ib} alone', {'sequence': sseq, 'G': gs, 'point': i})
+                if len(set(verdicts)) < 2 and scale == lo_ * 0.995:
+                    ctx.count('near-endurance level without mixed verdicts')
     ctx.sample({'sequence': [100, -200, 100, -250, 200, 0, 200, -200], 'G': (0.2, 10.0, 20.0)})
 
 
